@@ -1142,7 +1142,8 @@ class Hyperplane(Subspace):
         #numpy's eig expects a matrix operating on the left
         evals, evecs = np.linalg.eig(matrix)
 
-        dimension = reflection.dimension
+        # (reflection may be a plain ndarray, which has no dimension)
+        dimension = matrix.shape[-1] - 1
 
         #we expect a reflection to have eigenvalues [-1, 1, ...]
         expected_evals = np.ones(dimension + 1)
